@@ -1609,6 +1609,15 @@ func (in *Interp) execFor(st *State, x *ast.ForStmt, label string) (*State, bool
 			grows := false
 			if ok {
 				grows = in.w.ProveX(sym.AddC(1), nv.T, bs.facts)
+				// a cursor of a narrow unsigned type must not wrap when advanced
+				if bits, uns := intBits(o.Type()); grows && uns && bits < 64 {
+					if !in.w.ProveX(nv.T, Const(int64(1)<<uint(bits)-1), bs.facts) {
+						grows = false
+						cp.Strict = false
+						cp.MinWhy = fmt.Sprintf("the cursor is a uint%d and its new value %v is not provably <= %d: the addition can wrap and the loop never reaches its bound", bits, nv.T, int64(1)<<uint(bits)-1)
+						break
+					}
+				}
 			}
 			if !grows {
 				cp.Strict = false
